@@ -507,10 +507,62 @@ def _int_fact(out, name):
                '(unsigned long long)(%s));' % (name, name, name, name, name))
 
 
+# globals whose C "variable" is a dynamic macro (documented in cdef.rst: '#define myvar (*fetchme())'): what
+# the name designates changes with c12_dcur, so every access has to ask the C side again
+DYN_CDEF = """
+struct c12_dpt { int x, y; };
+extern int c12_dcur;
+extern struct c12_dpt c12_dcurpt;
+extern int c12_dcurarr[3];
+extern int c12_dcurint;
+"""
+DYN_SRC = """
+struct c12_dpt { int x, y; };
+int c12_dcur = 0;
+static struct c12_dpt c12_dpts[2] = {{1, 2}, {30, 40}};
+static int c12_darrs[2][3] = {{1, 2, 3}, {10, 20, 30}};
+static int c12_dints[2] = {7, 70};
+#define c12_dcurpt (c12_dpts[c12_dcur])
+#define c12_dcurarr (c12_darrs[c12_dcur])
+#define c12_dcurint (c12_dints[c12_dcur])
+"""
+
+
+def check_dynamic_globals(env):
+    lib, ffi, ctx = env['lib'], env['ffi'], env['ctx']
+    want = [((1, 2), [1, 2, 3], 7), ((30, 40), [10, 20, 30], 70)]
+
+    def see():
+        pt = lib.c12_dcurpt
+        ap = ffi.addressof(lib, 'c12_dcurpt')
+        return ((pt.x, pt.y), list(lib.c12_dcurarr), lib.c12_dcurint, (ap.x, ap.y),
+                list(ffi.addressof(lib, 'c12_dcurarr')[0]))
+    for cur in (0, 1, 0, 1):
+        lib.c12_dcur = cur
+        got = see()
+        exp = want[cur] + (want[cur][0], want[cur][1])
+        if got != exp:
+            ctx.fail('macro globals with c12_dcur = %d read %r, the C objects hold %r' % (cur, got, exp),
+                     cdef=DYN_CDEF, source=DYN_SRC)
+    lib.c12_dcur = 1
+    lib.c12_dcurarr[1] = 99
+    lib.c12_dcurpt.y = 77
+    lib.c12_dcurint = 5
+    lib.c12_dcur = 0
+    if see()[:3] != want[0]:
+        ctx.fail('writes through macro globals with c12_dcur = 1 changed the objects of c12_dcur = 0: %r' % (see(),),
+                 cdef=DYN_CDEF, source=DYN_SRC)
+    lib.c12_dcur = 1
+    if see()[:3] != ((30, 77), [10, 99, 30], 5):
+        ctx.fail('writes through macro globals with c12_dcur = 1 are not read back: %r' % (see(),),
+                 cdef=DYN_CDEF, source=DYN_SRC)
+    ctx.note(['dynamic-macro-globals', env['cdef'][:200]], True, ['dynamic-macro-globals'])
+
+
 def build_sources(case, items):
     spec = case['spec']
     decls = spec['decls']
-    csrc = cdefgen.c_source(spec)
+    csrc = cdefgen.c_source(spec) + DYN_SRC
     body = []
     extra = []
     calls = {}
@@ -584,7 +636,7 @@ def build_sources(case, items):
               '#define P(...) (verif_p += sprintf(verif_p, __VA_ARGS__))\n'
               'const char *verif_facts(void) {\n  verif_p = verif_buf; verif_buf[0] = 0;\n  '
               + '\n  '.join(body) + '\n  return verif_buf;\n}\n')
-    cdef = '\n'.join(it['cdef'] for it in items) + '\n'
+    cdef = '\n'.join(it['cdef'] for it in items) + '\n' + DYN_CDEF
     if use_packed(case):
         # every struct/union of the C source (and the alias structs used to judge mutations) is laid
         # out packed; system headers stay outside the pragma regions
@@ -681,6 +733,7 @@ def prop(case, ctx):
     env = {'items': items, 'case': case, 'decls': decls, 'facts': facts, 'ffi': mffi, 'lib': lib, 'cdll': cdll,
            'ctx': ctx, 'cdef': cdef, 'rich': rich, 'calls': calls, 'errors': (mffi.error, cffi.VerificationError)}
     present = set(dir(lib))
+    check_dynamic_globals(env)
     for it in items:
         d = it['d']
         if it['i'] in tainted:
